@@ -224,12 +224,18 @@ def _oracle_c04(case, ir):
     winner, runner_up = ir["pair"]
     res = sp["as"]
     for k, a in enumerate(res):
+        # an assertion compares two different candidates, both still standing
+        if a["w"] == a["l"] or a["w"] in a["e"] or a["l"] in a["e"]:
+            return {"what": f"assertion {k} {a['t']}({a['w']},{a['l']},{a['e']}) is not an assertion about two "
+                            f"standing candidates"}
         if a["t"] == "NEB":
             W, L = tally_neb_raw(case, a["w"], a["l"])
             if not leading_hole(case) and (W, L) != R.tally_neb(wb, a["w"], a["l"]):
                 return {"what": "harness: the two NEB tally helpers disagree"}
         else:
-            W, L = R.tally_nen(wb, a["w"], a["l"], a["e"])
+            # each tally by its own count (the helper gives a ballot to the winner first when winner = loser)
+            W = R.tally_nen(wb, a["w"], None, a["e"])[0]
+            L = R.tally_nen(wb, a["l"], None, a["e"])[0]
         if (W, L) != (a["vw"], a["vl"]):
             return {"what": f"assertion {k} {a['t']}({a['w']},{a['l']},{a['e']}) reports tallies "
                             f"{a['vw']}/{a['vl']}, the CVRs give {W}/{L}"}
